@@ -13,5 +13,5 @@
 )]
 
 pub mod pipe;
-pub mod sim;
 pub mod seams;
+pub mod sim;
